@@ -641,12 +641,17 @@ def _run(*, tier, seed, jobs, progress, opts):
         mtasks = [('++', pr, False, 1, None) for pr in c04mt.pairs(core)]
         mtasks += [('++', pr, True, 1, None) for pr in c04mt.pairs(core)
                    if 'SELECT' in pr or pr == ('APPEND', 'APPEND')]
+        mtasks += [('++', pr, False, 1, None) for pr in c04mt.EXTRA_PAIRS]
     else:
         mtasks = [(layout, pr, d, 1, None) for layout in ('++', 'fs')
                   for pr in c04mt.pairs(c04mt.ORDER) for d in (False, True)]
+        mtasks += [(layout, pr, False, 1, None) for layout in ('++', 'fs')
+                   for pr in c04mt.EXTRA_PAIRS if layout == '++'
+                   or 'raw' not in pr[0] + pr[1]]
         core = ['APPEND', 'SELECT', 'COPY', 'MOVE']
         mtasks += [('++', pr, d, 2, None) for pr in c04mt.pairs(core)
                    for d in (False, True)]
+        mtasks += [('++', pr, False, 2, None) for pr in c04mt.EXTRA_PAIRS[:6]]
     if 'mt' in opts:
         mtasks = [t for t in mtasks if t[3] <= int(opts['mt'])]
     mt_cov = {'pairs': 0, 'executions': 0, 'max_decision_points': 0,
@@ -699,6 +704,10 @@ def _run(*, tier, seed, jobs, progress, opts):
                    'on one maildir, each running one command of {APPEND, '
                    'SELECT, COPY, MOVE, EXPUNGE, NOOP, STATUS, APPEND without '
                    'selection} (optionally with an undelivered file in new/), '
+                   'plus 15 further pairs (CHECK against the adders, a session '
+                   'scanning the source of a MOVE, two MOVEs of one message '
+                   'into the selected mailbox, MOVE out and back, a folder '
+                   'without UID list opened by two sessions at once), '
                    'every schedule of their filesystem calls with at most 1 '
                    '(thorough: core pairs 2) preemptions; afterwards every '
                    'session and a fresh one dump the mailboxes')
